@@ -135,9 +135,9 @@ def prop_theorems(prop):
         m = re.match(r"\s*end\s+(\S+)", line)
         if m and ns and ns[-1] == m.group(1):
             ns.pop(); continue
-        m = re.match(r"\s*(?:@\[[^\]]*\]\s*)?(?:protected\s+|private\s+)?theorem\s+(\S+)", line)
-        if m:
-            names.append(".".join(ns + [m.group(1)]))
+        m = re.match(r"\s*(?:@\[[^\]]*\]\s*)?(protected\s+|private\s+)?theorem\s+(\S+)", line)
+        if m and not (m.group(1) or "").startswith("private"):
+            names.append(".".join(ns + [m.group(2)]))
     return names
 
 
